@@ -98,9 +98,13 @@ impl Shape {
             let next = self.step_fn(&rows[j], j, &pv);
             rows.push(next);
         }
-        if free_tail {
-            for j in (self.n - self.exempt + 1)..self.n {
-                for c in 0..self.width {
+        // a period-two column satisfies its constraint on every step, so with more than one exemption its constraint
+        // polynomial would have a lower degree than declared (a degenerate trace): its tail is always freed, except for
+        // the cells that a periodic assertion names (those have to repeat)
+        let named = |c: usize, j: usize| self.asserts.iter().any(|a| a.kind == "periodic" && a.col == c && j % a.stride == a.first % a.stride);
+        for j in (self.n - self.exempt + 1)..self.n {
+            for c in 0..self.width {
+                if (free_tail || self.is_neg(c)) && !(self.is_neg(c) && named(c, j)) {
                     rows[j][c] = B::from((rng.next() >> 34) as u32 + 5);
                 }
             }
